@@ -308,7 +308,8 @@ pub fn check_stream(cfg: &StreamCfg, items: &[Item], diag: &Diag, out: &mut Outc
                 json!({"kind": "stream", "cfg": cfg.id(), "items": items}),
             ));
         }
-        return;
+        // no return: whether the stream still reads back as the values written (C03) does not
+        // depend on which codewords the writer chose; positions below come from the write returns
     }
     if ok_items < items.len() {
         return;
@@ -332,7 +333,7 @@ pub fn check_stream(cfg: &StreamCfg, items: &[Item], diag: &Diag, out: &mut Outc
         let rid = format!("{}/{}/{}/w{}/o{}", e.name(), kind, backend, cfg.wbits, cfg.offset);
         let mut mpos = 0usize;
         for (ix, it) in items.iter().enumerate() {
-            let (_, s, t) = marks[ix];
+            let t = real_end[ix];
             // offset bits
             if cfg.offset > 0 {
                 let o = rd.apply(&ROp::Skip(cfg.offset as u16));
@@ -342,7 +343,6 @@ pub fn check_stream(cfg: &StreamCfg, items: &[Item], diag: &Diag, out: &mut Outc
                 }
             }
             mpos += cfg.offset;
-            debug_assert_eq!(mpos, s);
             let variants = read_variants(it.code, cfg.with_disp);
             let mut chosen: Option<Box<dyn crate::rd::Rd>> = None;
             let mut bad = false;
